@@ -380,6 +380,10 @@ SPEC_KINDS = {
 NEEDS = {"d": ["num"], "s": ["any"], "c": ["chr"], "r": ["any"], "pct": [], "stard": ["int", "num"],
          "pstarf": ["int", "num"], "5d": ["num"], "dstar": ["int", "int", "num"]}
 ARG_KINDS = ["int", "str", "none", "float"]
+# bytes templates: %s / %b take bytes-like objects only, %c an int in range(256) or a length-1 bytes
+BYTES_SPEC_KINDS = {"d": b"%d", "s": b"%s", "c": b"%c", "b": b"%b", "a": b"%a", "stard": b"%*d"}
+BYTES_NEEDS = {"d": ["num"], "s": ["bts"], "c": ["chr"], "b": ["bts"], "a": ["any"], "stard": ["int", "num"]}
+BYTES_ARG_KINDS = ["int", "str", "bytes", "none"]
 
 
 def _arg_ok(need: str, kind: str, ival, sval, is_bytes: bool) -> bool:
@@ -390,11 +394,15 @@ def _arg_ok(need: str, kind: str, ival, sval, is_bytes: bool) -> bool:
         return kind in ("int", "float")
     if need == "int":
         return kind == "int"
+    if need == "bts":
+        return kind == "bytes"
     if need == "chr":
         if kind == "int":
             return 0 <= ival < (256 if is_bytes else 0x110000)
         if kind == "str":
-            return len(sval) == 1
+            return (not is_bytes) and len(sval) == 1
+        if kind == "bytes":
+            return is_bytes and len(sval) == 1
         return False
     raise AssertionError(need)
 
@@ -402,6 +410,13 @@ def _arg_ok(need: str, kind: str, ival, sval, is_bytes: bool) -> bool:
 def _mk_arg(kind, ival, sval, is_bytes):
     if kind == "int":
         return ival
+    if kind == "bytes":
+        # the length of the symbolic str decides the length of the bytes object
+        if len(sval) == 0:
+            return b""
+        if len(sval) == 1:
+            return b"a"
+        return b"ab"
     if kind == "str":
         return sval
     if kind == "none":
@@ -441,6 +456,35 @@ def h17_args(i0: int, i1: int, i2: int, i3: int, s0: str, s1: str, s2: str, s3: 
         c_ok = True
         for j, need in enumerate(needs):
             if not _arg_ok(need, kinds[j], ivals[j], svals[j], False):
+                c_ok = False
+    return fin((len(errs) == 0) == c_ok)
+
+
+def h17_bytes(i0: int, i1: int, s0: str, s1: str) -> bool:
+    """
+    post: _
+    """
+    if excluded(i0=i0, i1=i1, s0=s0, s1=s1):
+        return skip()
+    data = G.case
+    specs, kinds = data["specs"], data["args"]
+    ivals, svals = (i0, i1), (s0, s1)
+    for j, k in enumerate(kinds):
+        if k in ("str", "bytes") and len(svals[j]) > 2:
+            return skip()
+    template = b"x".join(BYTES_SPEC_KINDS[sk] for sk in specs)
+    f = PercentFormatString.from_bytes_pattern(template)
+    args = tuple(_mk_arg(k, ivals[j], svals[j], True) for j, k in enumerate(kinds))
+    errs = list(f.lint()) + list(f.accept(KnownValue(args), get_checker()))
+    needs = []
+    for sk in specs:
+        needs += BYTES_NEEDS[sk]
+    if len(needs) != len(args):
+        c_ok = False
+    else:
+        c_ok = True
+        for j, need in enumerate(needs):
+            if not _arg_ok(need, kinds[j], ivals[j], svals[j], True):
                 c_ok = False
     return fin((len(errs) == 0) == c_ok)
 
@@ -494,6 +538,21 @@ def e3_args() -> Dict[str, Any]:
                     n += 1
                     if model != real:
                         bad.append((sk, combo, iv, sv, model, real))
+    for sk in BYTES_SPEC_KINDS:
+        needs = BYTES_NEEDS[sk]
+        for combo in itertools.product(BYTES_ARG_KINDS, repeat=len(needs)):
+            for iv in [-1, 0, 255, 256]:
+                for sv in strs:
+                    args = tuple(_mk_arg(k, iv, sv, True) for k in combo)
+                    model = all(_arg_ok(nd, k, iv, sv, True) for nd, k in zip(needs, combo))
+                    try:
+                        BYTES_SPEC_KINDS[sk] % args
+                        real = True
+                    except Exception:
+                        real = False
+                    n += 1
+                    if model != real:
+                        bad.append(("bytes", sk, combo, iv, sv, model, real))
     return {"compared": n, "disagreements": bad[:10]}
 
 
@@ -748,6 +807,17 @@ def cases(tier: str, seed: int) -> List[Case]:
                     if na == 1 and args[0] != "none" and ns == 1:
                         out.append(Case("h17_args", lab + ":bare", {"specs": list(specs), "args": list(args), "bare": True},
                                         timeout=60, twin=False))
+    for ns in (1, 2):
+        for specs in itertools.product(list(BYTES_SPEC_KINDS), repeat=ns):
+            nneed = sum(len(BYTES_NEEDS[sp_]) for sp_ in specs)
+            if nneed > 2:
+                continue
+            for args in itertools.product(BYTES_ARG_KINDS, repeat=nneed):
+                idx += 1
+                if ns == 2 and (idx + seed) % (9 if quick else 2) != 0:
+                    continue
+                out.append(Case("h17_bytes", "bytes:" + ",".join(specs) + "|" + ",".join(args),
+                                {"specs": list(specs), "args": list(args)}, timeout=60, twin=(idx % 9 == 0)))
     for conv_a in "dsc":
         for conv_b in "ds":
             for a_kind in ("int", "str"):
